@@ -1569,20 +1569,34 @@ Qed.
 
 (* ---------------- API calls ---------------- *)
 Definition uo (a : st) (o : op) : list tid :=
-  match o with ASpawn _ _ | AStart _ _ => [ntask a] | _ => [] end.
+  match o with ASpawn _ g | AStart _ g => if group_active a g then [ntask a] else [] | _ => [] end.
 
 Lemma incl_one (u : tid) l : incl [u] (u :: l).
 Proof. intros x [<-|[]]. now left. Qed.
 
+Definition is_api (o : op) : bool :=
+  match o with AFinish _ _ | ANewRoot | ANativeCancel _ | AExtCancel _ | ARun _ | ATick _ => false | _ => true end.
+
+Lemma held_begin_act a u t org : Held (begin_act a u) t org -> Held a t org.
+Proof.
+  intros [[A B]|[f [A B]]]; cbn [begin_act tasks futs set_running upd_task set_tasks] in *; unfold upd in *;
+    destruct (Nat.eqb_spec t u); subst; cbn in *.
+  - left. now split.
+  - left. now split.
+  - discriminate.
+  - right. now exists f.
+Qed.
+
 Lemma WFE_puppet_op a u o :
-  TO a -> KInv a -> running a = None -> u < ntask a ->
+  TO a -> KInv a -> running a = None -> u < ntask a -> is_api o = true ->
   (forall g, g_scope (groups a g) < nscope a) ->
   (forall c, s_active (scopes a c) = false ->
              (forall p, ~ In c (s_children (scopes a p))) /\ (forall t, k_cur (tasks a t) <> Some c)) ->
   (forall t c, o = AEnter t c -> c < nscope a) ->
-  WFE (u :: uo a o) a (fst (puppet_op a u o)).
+  WFE (u :: uo a o) a (fst (puppet_op a u o)) /\
+  (forall org, Held (fst (puppet_op a u o)) u org -> Held a u org).
 Proof.
-  intros T Ka Hr Hu HG HI HE. unfold puppet_op.
+  intros T Ka Hr Hu Hapi HG HI HE. unfold puppet_op.
   set (U := u :: uo a o).
   assert (I1 : incl [u] U) by apply incl_one.
   assert (K0 : WQ U a (begin_act a u)) by now apply WT_WQ, WT_begin_act.
@@ -1590,15 +1604,19 @@ Proof.
   assert (Ts : TO s) by (apply (w_to _ _ _ _ _ _ _ K0), T).
   assert (Ks : KInv s) by (apply (w_k _ _ _ _ _ _ _ K0), Ka).
   assert (Hus : u < ntask s) by exact Hu.
+  assert (Rs : running s = Some u) by reflexivity.
   assert (Ecs : k_cur (tasks s u) = k_cur (tasks a u)) by (unfold s; cbn; unfold upd; now rewrite Nat.eqb_refl).
-  assert (Q : forall s1 r, WF U s s1 -> WFE U a (fst (ret_to_puppet s1 u r))).
-  { intros s1 r H. apply (WFE_r U a s1); [now apply (WF_l U a s)|apply WTE_WQE, WTE_ret]. }
-  assert (B : forall s1 c, WF U s s1 -> WFE U a (fst (blocked (set_ctl s1 u c)))).
-  { intros s1 c H. apply (WFE_r U a s1); [now apply (WF_l U a s)|apply WQE_block, W_refl]. }
+  match goal with |- WFE U a (fst ?X) /\ _ => assert (Body : WFE U s (fst X)) end;
+    [|split; [apply (WFE_l U a s _ K0 Body)|
+              intros org Hh; apply (held_begin_act a u u org); apply (w_own _ _ _ _ _ _ _ Body Ks u Rs org Hh)]].
+  assert (Q : forall s1 r, WF U s s1 -> WFE U s (fst (ret_to_puppet s1 u r))).
+  { intros s1 r H. apply (WFE_r U s s1); [exact H|apply WTE_WQE, WTE_ret]. }
+  assert (B : forall s1 c, WF U s s1 -> WFE U s (fst (blocked (set_ctl s1 u c)))).
+  { intros s1 c H. apply (WFE_r U s s1); [exact H|apply WQE_block, W_refl]. }
   assert (En : forall c, (s_active (scopes a c) = false -> c < nscope a) -> s_active (scopes s c) = false -> Enterable s c u).
   { intros c Hc Hi. destruct (HI c Hi) as [H1 H2]. repeat split; [exact H1| |now apply Hc|exact Hu].
     rewrite Ecs. apply H2. }
-  destruct o; try (apply W_refl); subst U; cbn [uo] in *.
+  destruct o; try discriminate Hapi; subst U; cbn [uo] in *.
   - (* ANewScope *) unfold new_scope. cbv zeta. apply Q. apply WT_WF, (WT_new_scope _ s d sh).
   - (* AEnter *)
     pose proof (WC_enter s c u (En c (fun _ => HE t c eq_refl))) as H.
@@ -1647,15 +1665,17 @@ Proof.
     destruct (g_tasks (groups s1 g)) eqn:Eg.
     + unfold new_scope. cbv zeta. cbn [fst].
       match goal with |- _ (fst (blocked (set_ctl (bare_yield ?m u) u ?c))) =>
-        apply (WFE_r [u] a m); [|apply WQE_block, WT_WQ, WT_bare_yield] end.
-      apply (WF_l [u] a s _ K0). apply WC_WF. apply (WC_trans_cq [u] s s1 _ H1). apply WT_WQ. now apply WT_new_enter.
-    + apply (WFE_r [u] a s1); [apply (WF_l [u] a s _ K0), WC_WF, H1|]. now apply WQE_wof.
+        apply (WFE_r [u] s m); [|apply WQE_block, WT_WQ, WT_bare_yield] end.
+      apply WC_WF. apply (WC_trans_cq [u] s s1 _ H1). apply WT_WQ. now apply WT_new_enter.
+    + apply (WFE_r [u] s s1); [apply WC_WF, H1|]. now apply WQE_wof.
   - (* ASpawn *)
+    change (group_active a g) with (group_active s g) in *.
     destruct (group_active s g) eqn:Ega; cbn [negb]; [|apply Q, W_refl].
     assert (Hgs : g_scope (groups s g) < nscope s) by apply (HG g).
     pose proof (WQ_spawn s g None Hgs) as H. destruct (spawn_task s g None) as [s1 c]. cbn [fst] in H.
     apply Q. apply WQ_WF. apply (W_incl _ _ _ _ [ntask s]); [|exact H]. intros x [<-|[]]. right. now left.
   - (* AStart *)
+    change (group_active a g) with (group_active s g) in *.
     destruct (group_active s g) eqn:Ega; cbn [negb]; [|apply Q, W_refl].
     unfold new_fut. cbv zeta.
     set (m1 := mkSt (tasks s) (ntask s) (scopes s) (nscope s) (groups s) (ngroup s) (upd (futs s) (nfut s) fut0) (S (nfut s))
@@ -1687,8 +1707,8 @@ Proof.
   - (* AShieldCk *)
     unfold new_scope. cbv zeta. cbn [fst].
     match goal with |- _ (fst (blocked (set_ctl (bare_yield ?m u) u ?c))) =>
-      apply (WFE_r [u] a m); [|apply WQE_block, WT_WQ, WT_bare_yield] end.
-    apply (WF_l [u] a s _ K0). apply WT_WF. now apply WT_new_enter.
+      apply (WFE_r [u] s m); [|apply WQE_block, WT_WQ, WT_bare_yield] end.
+    apply WT_WF. now apply WT_new_enter.
   - (* ASleep *)
     unfold new_fut. cbv zeta. destruct d as [dt|].
     + unfold call_at. cbv zeta. cbn [fst].
@@ -1707,8 +1727,8 @@ Proof.
   - apply Q. apply WT_WF, WT_upd_task; intros k; reflexivity.
   - apply Q. apply WT_WF, WT_task_uncancel.
   - (* AEffDeadline *)
-    cbn [fst]. apply (WFE_r [u] a (park s u)); [|apply WTE_WQE, WTE_set_running].
-    apply (WF_l [u] a s _ K0). apply WT_WF, WT_park.
+    cbn [fst]. apply (WFE_r [u] s (park s u)); [|apply WTE_WQE, WTE_set_running].
+    apply WT_WF, WT_park.
   - (* AFailAt *)
     unfold new_scope. cbv zeta.
     set (m1 := mkSt (tasks s) (ntask s) (upd (scopes s) (nscope s) (sc_shield sh (sc_deadline d scope0))) (S (nscope s))
@@ -1747,7 +1767,8 @@ Lemma WFE_resume a u fo :
   (k_ctl (tasks a u) = CNew -> k_hscope (tasks a u) < nscope a) ->
   (forall c, s_active (scopes a c) = false ->
              (forall p, ~ In c (s_children (scopes a p))) /\ (forall t, k_cur (tasks a t) <> Some c)) ->
-  WFE [u] a (fst (resume a u fo)).
+  WFE [u] a (fst (resume a u fo)) /\
+  (k_ctl (tasks a u) <> CDone -> forall org, ~ Held (fst (resume a u fo)) u org).
 Proof.
   intros T Ka Hr Hu Hh HI. unfold resume.
   pose proof (WT_incoming [u] a u fo Hr) as K0.
@@ -1759,25 +1780,34 @@ Proof.
   assert (Ess : scopes (fst (incoming a u fo)) = scopes a) by reflexivity.
   assert (Ent : ntask (fst (incoming a u fo)) = ntask a) by reflexivity.
   assert (Ens : nscope (fst (incoming a u fo)) = nscope a) by reflexivity.
+  assert (Rsu : running (fst (incoming a u fo)) = Some u) by reflexivity.
+  assert (Hs0 : forall org, ~ Held (fst (incoming a u fo)) u org).
+  { intros org [[A _]|[f [A _]]]; cbn [incoming fst tasks set_running upd_task set_tasks] in A; unfold upd in A;
+      rewrite Nat.eqb_refl in A; cbn in A; discriminate. }
   destruct (incoming a u fo) as [s inc]. cbn [fst] in *.
   assert (Ts : TO s) by (apply (w_to _ _ _ _ _ _ _ K0), T).
+  assert (Ks : KInv s) by (apply (w_k _ _ _ _ _ _ _ K0), Ka).
   apply WT_WQ in K0.
-  assert (Q : forall s1 r, WF [u] s s1 -> WFE [u] a (fst (ret_to_puppet s1 u r))).
-  { intros s1 r H. apply (WFE_r [u] a s1); [now apply (WF_l [u] a s)|apply WTE_WQE, WTE_ret]. }
-  assert (Qq : forall s1 r, WQ [u] s s1 -> WFE [u] a (fst (ret_to_puppet s1 u r))).
+  assert (Fin : forall X (P : Prop), WFE [u] s X -> WFE [u] a X /\ (P -> forall org, ~ Held X u org)).
+  { intros X P Body. split; [apply (WFE_l [u] a s _ K0 Body)|]. intros _ org Hx.
+    pose proof (w_own _ _ _ _ _ _ _ Body Ks u Rsu org Hx) as H0. apply (Hs0 org H0). }
+  assert (Q : forall s1 r, WF [u] s s1 -> WFE [u] s (fst (ret_to_puppet s1 u r))).
+  { intros s1 r H. apply (WFE_r [u] s s1); [exact H|apply WTE_WQE, WTE_ret]. }
+  assert (Qq : forall s1 r, WQ [u] s s1 -> WFE [u] s (fst (ret_to_puppet s1 u r))).
   { intros s1 r H. apply Q. now apply WQ_WF. }
-  assert (Wf : forall g s1 ws exc, WF [u] s s1 -> u < ntask a -> WFE [u] a (fst (aexit_wait_or_finish s1 u g ws exc))).
-  { intros g s1 ws exc H Hua. apply (WFE_r [u] a s1); [now apply (WF_l [u] a s)|].
+  assert (Wf : forall g s1 ws exc, WF [u] s s1 -> u < ntask a -> WFE [u] s (fst (aexit_wait_or_finish s1 u g ws exc))).
+  { intros g s1 ws exc H Hua. apply (WFE_r [u] s s1); [exact H|].
     apply WQE_wof; [apply (w_to _ _ _ _ _ _ _ H), Ts|]. pose proof (w_nt _ _ _ _ _ _ _ H). lia. }
-  assert (Bk : forall s1 c, WF [u] s s1 -> WFE [u] a (fst (blocked (set_ctl s1 u c)))).
-  { intros s1 c H. apply (WFE_r [u] a s1); [now apply (WF_l [u] a s)|apply WQE_block, W_refl]. }
-  destruct (k_ctl (tasks s u)) eqn:Ek0; symmetry in Ec; rename Ec into Ek.
+  assert (Bk : forall s1 c, WF [u] s s1 -> WFE [u] s (fst (blocked (set_ctl s1 u c)))).
+  { intros s1 c H. apply (WFE_r [u] s s1); [exact H|apply WQE_block, W_refl]. }
+  destruct (k_ctl (tasks s u)) eqn:Ek0; symmetry in Ec; rename Ec into Ek;
+    [apply Fin|apply Fin|apply Fin|apply Fin|apply Fin|apply Fin|apply Fin|apply Fin|apply Fin|].
   - (* CNew *)
     assert (Hua : u < ntask a) by (apply Hu; rewrite Ek; discriminate).
     set (s1 := upd_task s u (tk_started true)).
     assert (H1 : WT [u] s s1) by (apply WT_upd_task; intros k; reflexivity).
     destruct inc as [e|]; cbn [fst].
-    + apply (WFE_r [u] a s1); [apply (WF_l [u] a s _ K0), WT_WF, H1|apply WTE_WQE, WTE_finish_task].
+    + apply (WFE_r [u] s s1); [apply WT_WF, H1|apply WTE_WQE, WTE_finish_task].
     + set (s2 := match k_group (tasks s1 u) with Some _ => fst (scope_enter s1 (k_hscope (tasks s1 u)) u) | None => s1 end).
       assert (H2 : WC [u] s s2).
       { unfold s2. destruct (k_group (tasks s1 u)); [|now apply WT_WC].
@@ -1790,19 +1820,19 @@ Proof.
         - unfold s1. rewrite upd_task_eq. cbn. rewrite Ecs. apply A2.
         - change (nscope s1) with (nscope s). rewrite Ens. now apply Hh.
         - change (ntask s1) with (ntask s). now rewrite Ent. }
-      apply (WFE_r [u] a (park s2 u)); [|apply WTE_WQE, WTE_set_running].
-      apply (WF_l [u] a s _ K0). apply WC_WF. apply (WC_trans_cq [u] s s2 _ H2). apply WT_WQ, WT_park.
+      apply (WFE_r [u] s (park s2 u)); [|apply WTE_WQE, WTE_set_running].
+      apply WC_WF. apply (WC_trans_cq [u] s s2 _ H2). apply WT_WQ, WT_park.
   - (* CIdle *)
     cbn [fst]. set (s1 := match inc with Some e => upd_task s u (tk_held (Some e)) | None => s end).
     assert (H1 : WT [u] s s1) by (unfold s1; destruct inc; [apply WT_upd_task; intros k; reflexivity|apply W_refl]).
-    apply (WFE_r [u] a (park s1 u)); [|apply WTE_WQE, WTE_set_running].
-    apply (WF_l [u] a s _ K0). apply WT_WF. apply (WT_trans [u] s s1 _ H1). apply WT_park.
+    apply (WFE_r [u] s (park s1 u)); [|apply WTE_WQE, WTE_set_running].
+    apply WT_WF. apply (WT_trans [u] s s1 _ H1). apply WT_park.
   - (* CYield *)
     destruct k as [| |c].
     + apply Qq, W_refl.
     + destruct inc; [apply Qq, W_refl|]. cbn [fst blocked].
-      apply (WFE_r [u] a (bare_yield s u)); [|apply WTE_WQE, WTE_set_running].
-      apply (WF_l [u] a s _ K0). apply WT_WF, WT_bare_yield.
+      apply (WFE_r [u] s (bare_yield s u)); [|apply WTE_WQE, WTE_set_running].
+      apply WT_WF, WT_bare_yield.
     + pose proof (WQ_exit s c u inc) as H. destruct (scope_exit s c u inc) as [s1 x]. cbn [fst] in H.
       destruct x; now apply Qq.
   - (* CSleep *) apply Qq. apply WT_WQ, WT_timer_cancel.
@@ -1818,7 +1848,7 @@ Proof.
   - (* CAexitCk *)
     assert (Hua : u < ntask a) by (apply Hu; rewrite Ek; discriminate).
     pose proof (WQ_exit s sc u inc) as H. destruct (scope_exit s sc u inc) as [s1 x]. cbn [fst] in H.
-    assert (Rs : forall e0, WFE [u] a (fst (let '(s2, r) := aexit_raise s1 u g e0 in ret_to_puppet s2 u r))).
+    assert (Rs : forall e0, WFE [u] s (fst (let '(s2, r) := aexit_raise s1 u g e0 in ret_to_puppet s2 u r))).
     { intros e0. pose proof (WQ_aexit_raise s1 u g e0) as K2. destruct (aexit_raise s1 u g e0) as [s2 r]. cbn [fst] in K2.
       apply Qq. now apply (WQ_trans [u] s s1). }
     destruct x.
@@ -1848,7 +1878,7 @@ Proof.
     assert (H2 : WQ [u] s s2) by now apply (WQ_trans [u] s s1).
     destruct x; [now apply Qq|destruct inc; now apply Qq|now apply Qq].
   - (* CHandleWait *) apply Qq. apply WT_WQ, WT_event_unwait.
-  - (* CDone *) cbn [fst]. apply W_refl.
+  - (* CDone *) cbn [fst]. split; [apply W_refl|intros Hc; congruence].
 Qed.
 
 (* ---------------- the environment ---------------- *)
@@ -1962,4 +1992,185 @@ Proof.
         apply (WT_trans [] a s); [apply K0|]. change (running a) with (running s) in Hr.
         rewrite <- Hr. apply WT_set_running_same.
     + (* ATick *) destruct (Z.ltb dt 0); [apply W_refl|]. cbn [fst]. apply WF_WFE, WT_WF, WT_tick.
+Qed.
+
+(* ---------------- what an op does to the task that acts, and to a task it creates ---------------- *)
+Definition Same (a b : st) : Prop :=
+  tasks b = tasks a /\ scopes b = scopes a /\ futs b = futs a /\ nscope b = nscope a.
+
+Lemma finish_not_held m u o org : ~ Held (finish_task m u o) u org.
+Proof.
+  unfold finish_task. set (m1 := upd_task m u _).
+  assert (E : forall X, tasks X = tasks m1 -> ~ Held X u org).
+  { intros X Et [[A _]|[f [A _]]]; rewrite Et in A; unfold m1 in A; rewrite upd_task_eq in A; cbn in A; discriminate. }
+  destruct (k_group (tasks m u)); apply E; reflexivity.
+Qed.
+
+Lemma idle_not_held a u org : MP a -> idle a u = true -> ~ Held a u org.
+Proof.
+  intros M Hi. unfold idle in Hi. destruct (k_ctl (tasks a u)); try discriminate.
+  destruct (k_waiter (tasks a u)) as [f|] eqn:Ew; [|discriminate].
+  apply andb_true_iff in Hi. destruct Hi as [Hi _]. apply andb_true_iff in Hi. destruct Hi as [Hp _].
+  unfold fut_pending in Hp. destruct (f_st (futs a f)) eqn:Ef; try discriminate.
+  intros [[A _]|[g [A B]]]; [exact (M u f A Ew Ef)|]. rewrite Ew in A. injection A as <-. congruence.
+Qed.
+
+Theorem own_step a o u :
+  reach_ok a -> running a = None -> op_ok a o = true -> MP a ->
+  (actor o = Some u \/ o = ARun (HStep u) \/ exists f, o = ARun (HWake u f)) ->
+  Same a (fst (step a o)) \/ forall org, ~ Held (fst (step a o)) u org.
+Proof.
+  intros R Hr Hok M Ho. pose proof (reach_tree a R) as Tr. pose proof (reach_sinv a R) as SI.
+  pose proof (TO_reach a R) as T.
+  assert (Ka : KInv a) by (destruct R as [ops [_ ->]]; apply reach_kinv).
+  assert (HG : forall g, g_scope (groups a g) < nscope a).
+  { intros g. destruct (alloc_g_dec a g) as [A|A]; [apply (tr_gscope _ Tr g A)|].
+    rewrite (tr_gblank _ Tr g A). apply Tr. }
+  assert (HI : forall c, s_active (scopes a c) = false ->
+                 (forall p, ~ In c (s_children (scopes a p))) /\ (forall t, k_cur (tasks a t) <> Some c)).
+  { intros c Hi. split.
+    - intros p Hin. destruct (proj1 (tr_child _ Tr p c) Hin) as [A _]. congruence.
+    - intros t E. pose proof (tr_cur_act _ Tr t c E). congruence. }
+  assert (Sa : Same a a) by (repeat split; reflexivity).
+  unfold step. destruct Ho as [Ea|Ho].
+  - rewrite Ea. destruct (idle a u) eqn:Ei; cbn [negb]; [|now left].
+    destruct (idle_spec a u Ei) as [_ [_ Au]]. right. intros org Hh. apply (idle_not_held a u org M Ei).
+    destruct o; cbn [actor] in Ea; try discriminate; inversion Ea; subst;
+      try (revert Hh; apply WFE_puppet_op; auto; intros t0 c0 E; inversion E; subst;
+           cbn [op_ok] in Hok; apply andb_true_iff in Hok; destruct Hok as [Hok _];
+           apply andb_true_iff in Hok; destruct Hok as [_ Hok]; now apply Nat.ltb_lt in Hok).
+    exfalso. revert Hh. unfold puppet_finish. destruct (k_group _); [|apply finish_not_held].
+    destruct (scope_exit _ _ _ _) as [s4 x]. destruct x; apply finish_not_held.
+  - assert (E : exists h fo, o = ARun h /\ fst (run_handle a h) =
+                 (if negb (existsb (handle_eqb h) (ready a)) then a else fst (resume (pop a h) u fo))).
+    { destruct Ho as [->|[f ->]]; [exists (HStep u), None|exists (HWake u f), (Some f)]; (split; [reflexivity|]);
+        unfold run_handle; destruct (negb _); reflexivity. }
+    destruct E as (h & fo & -> & E). cbn [actor]. rewrite E. destruct (negb _); [now left|].
+    set (s := pop a h).
+    assert (K0 : WT [] a s) by (apply WT_other; reflexivity).
+    assert (Ss : Same a s) by (repeat split; reflexivity).
+    assert (Hc : k_ctl (tasks a u) = CDone \/ k_ctl (tasks a u) <> CDone) by (destruct (k_ctl (tasks a u)); (now left) || (right; discriminate)).
+    destruct Hc as [Hc|Hc].
+    + left. unfold resume. destruct (incoming s u fo) as [s1 inc] eqn:Ei.
+      assert (Ec : k_ctl (tasks s1 u) = CDone).
+      { change s1 with (fst (s1, inc)). rewrite <- Ei, incoming_ctl. exact Hc. }
+      rewrite Ec. exact Ss.
+    + right. apply WFE_resume; auto.
+      * apply (w_to _ _ _ _ _ _ _ K0), T.
+      * apply (w_k _ _ _ _ _ _ _ K0), Ka.
+      * intros _. destruct (alloc_t_dec a u) as [A|A]; [apply A|]. elim Hc. apply (c_unalloc _ (si_ctl _ SI) u A).
+      * intros Hn. change (tasks s u) with (tasks a u) in *. change (nscope s) with (nscope a).
+        destruct (alloc_t_dec a u) as [A|A]; [|rewrite (c_unalloc _ (si_ctl _ SI) u A) in Hn; discriminate].
+        destruct (c_ok _ (si_ctl _ SI) u A) as [C1 _]. destruct (C1 Hn) as [_ [G _]].
+        destruct (k_group (tasks a u)) as [g|] eqn:Eg; [|congruence].
+        apply (tr_kgroup _ Tr u g A Eg).
+Qed.
+
+Lemma child_from e X b nt u :
+  TO X -> KInv X -> nt <> u -> k_must (tasks X nt) = false -> k_waiter (tasks X nt) = None ->
+  W true true false e [u] X b -> forall org, Held b nt org -> OC b nt org.
+Proof.
+  intros T K Hne Hm Hw H org Hh.
+  assert (Hn : ~ In nt [u]) by (intros [E|[]]; congruence).
+  destruct (w_h _ _ _ _ _ _ _ H T K nt org Hn Hh) as [A|[[_ A]|[E _]]]; [| |discriminate].
+  - destruct A as [[A _]|[f [A _]]]; congruence.
+  - apply (OC_fwd X b); [apply T|split; [apply H|apply (w_v _ _ _ _ _ _ _ H eq_refl)]|now apply H|exact A].
+Qed.
+
+Theorem child_step a u g o :
+  reach_ok a -> running a = None -> idle a u = true -> (o = ASpawn u g \/ o = AStart u g) ->
+  group_active a g = true ->
+  forall org, Held (fst (step a o)) (ntask a) org -> OC (fst (step a o)) (ntask a) org.
+Proof.
+  intros R Hr Hi Ho Hga. pose proof (reach_tree a R) as Tr. pose proof (TO_reach a R) as T.
+  assert (Ka : KInv a) by (destruct R as [ops [_ ->]]; apply reach_kinv).
+  destruct (idle_spec a u Hi) as [_ [_ Au]].
+  assert (HG : forall g, g_scope (groups a g) < nscope a).
+  { intros g0. destruct (alloc_g_dec a g0) as [A|A]; [apply (tr_gscope _ Tr g0 A)|].
+    rewrite (tr_gblank _ Tr g0 A). apply Tr. }
+  assert (Es : fst (step a o) = fst (puppet_op a u o)).
+  { unfold step. destruct Ho as [-> | ->]; cbn [actor]; now rewrite Hi. }
+  rewrite Es. unfold puppet_op.
+  pose proof (WT_begin_act [u] a u Hr) as K0. set (s := begin_act a u) in *.
+  assert (Ts : TO s) by (apply (w_to _ _ _ _ _ _ _ K0), T).
+  assert (Ks : KInv s) by (apply (w_k _ _ _ _ _ _ _ K0), Ka).
+  assert (Hne : ntask a <> u) by lia.
+  assert (Ega : group_active s g = true) by exact Hga.
+  destruct Ho as [-> | ->]; rewrite Ega; cbn [negb].
+  - rewrite spawn_task_eq. set (X := spawn_struct s g None).
+    assert (HX : WT [ntask s] s X) by (apply WT_spawn_struct; apply (HG g)).
+    apply (child_from true X _ (ntask a) u).
+    + apply (w_to _ _ _ _ _ _ _ HX), Ts.
+    + apply (w_k _ _ _ _ _ _ _ HX), Ks.
+    + exact Hne.
+    + unfold X, spawn_struct. cbn. unfold upd. now rewrite Nat.eqb_refl.
+    + unfold X, spawn_struct. cbn. unfold upd. now rewrite Nat.eqb_refl.
+    + apply WQE_ret_after. apply (WQ_trans [u] X (restart X (Some (g_scope (groups s g))))); [apply WQ_restart|apply WT_WQ, WT_call_soon].
+  - unfold new_fut. cbv zeta.
+    set (m1 := mkSt (tasks s) (ntask s) (scopes s) (nscope s) (groups s) (ngroup s) (upd (futs s) (nfut s) fut0) (S (nfut s))
+                    (events s) (nevent s) (ready s) (timers s) (ntimer s) (now s) (running s)).
+    assert (Hm1 : WT [u] s m1) by apply (WT_new_fut _ s).
+    assert (Tm : TO m1) by (apply (w_to _ _ _ _ _ _ _ Hm1), Ts).
+    assert (Km : KInv m1) by (apply (w_k _ _ _ _ _ _ _ Hm1), Ks).
+    match goal with |- context [spawn_task m1 g ?sf] =>
+      assert (Ef : futs (fst (spawn_task m1 g sf)) (nfut s) = fut0);
+      [rewrite spawn_fut; [cbn; unfold upd; now rewrite Nat.eqb_refl|];
+       intros x Hx; change (tasks m1 x) with (tasks s x) in Hx; pose proof (k_alloc _ Ks x _ Hx); lia|];
+      assert (Hn : nfut s < nfut (fst (spawn_task m1 g sf))) by (rewrite spawn_nfut; cbn; lia);
+      rewrite (spawn_task_eq m1 g sf) in *; set (X := spawn_struct m1 g sf) in * end.
+    cbn [fst] in *.
+    assert (HX : WT [ntask m1] m1 X) by (apply WT_spawn_struct; apply (HG g)).
+    apply (child_from true X _ (ntask a) u).
+    + apply (w_to _ _ _ _ _ _ _ HX), Tm.
+    + apply (w_k _ _ _ _ _ _ _ HX), Km.
+    + exact Hne.
+    + unfold X, spawn_struct. cbn. unfold upd. now rewrite Nat.eqb_refl.
+    + unfold X, spawn_struct. cbn. unfold upd. now rewrite Nat.eqb_refl.
+    + apply WQE_block.
+      match goal with |- _ (suspend_on ?s2 u ?f) => apply (WQ_trans [u] X s2) end.
+      * apply (WQ_trans [u] X (restart X (Some (g_scope (groups m1 g))))); [apply WQ_restart|apply WT_WQ, WT_call_soon].
+      * apply WT_WQ, WT_suspend_fresh; [exact Ef|exact Hn].
+Qed.
+
+Theorem root_step a org : ~ Held (fst (step a ANewRoot)) (ntask a) org.
+Proof.
+  cbn [step actor]. unfold new_root. cbn [fst]. fold (root_struct a).
+  assert (Hm : k_must (tasks (root_struct a) (ntask a)) = false).
+  { unfold root_struct. cbn. unfold upd. now rewrite Nat.eqb_refl. }
+  destruct (park_fields (root_struct a) (ntask a) Hm) as [E1 E2].
+  intros [[A _]|[f [A B]]]; cbn [tasks futs set_running] in *; rewrite E1 in A.
+  - change (k_must (tasks (root_struct a) (ntask a)) = true) in A. rewrite Hm in A. discriminate.
+  - change (Some (nfut (root_struct a)) = Some f) in A. injection A as <-. change (nfut (root_struct a)) with (nfut a) in E2. rewrite E2 in B. discriminate.
+Qed.
+
+(* the done-callback does not touch the outcome of its task *)
+Lemma td_done m u : k_done (tasks (run_task_done m u) u) = k_done (tasks m u).
+Proof.
+  pose proof (kq_run_task_done m u) as _. rewrite run_task_done_eq.
+  destruct (k_group (tasks m u)) as [g|]; [|reflexivity].
+  set (X := td_struct (set_running m None) u g).
+  assert (E1 : k_done (tasks X u) = k_done (tasks m u)).
+  { unfold X, td_struct. destruct (k_cur (tasks (set_running m None) u)); cbn; unfold upd; now rewrite Nat.eqb_refl. }
+  rewrite <- E1. generalize (tasks m u) as k. intros k. unfold td_tail.
+  set (s4 := match g_fut (groups X g), g_tasks (groups X g) with Some f, [] => fut_complete X f (FRes 0) | _, _ => X end).
+  assert (E4 : k_done (tasks s4 u) = k_done (tasks X u)).
+  { unfold s4. destruct (g_fut (groups X g)); [|reflexivity]. destruct (g_tasks (groups X g)); [|reflexivity].
+    now rewrite fut_complete_tasks. }
+  rewrite <- E4.
+  assert (Hc : forall a b0, k_done (tasks (scope_cancel a b0 false) u) = k_done (tasks a u)).
+  { intros a b0. unfold scope_cancel. destruct (s_cancelled (scopes a b0)); [reflexivity|].
+    set (a2 := upd_scope (cancel_timeout a b0) b0 _).
+    assert (E2 : tasks a2 = tasks a) by (unfold a2, cancel_timeout; destruct (s_timeout (scopes a b0)); reflexivity).
+    destruct (s_host (scopes a2 b0)); [|now rewrite E2].
+    rewrite (tcore_done _ _ (kf_tasks _ _ (kframe_deliver_top a2 b0) u)). now rewrite E2. }
+  destruct (match k_done k with Some (OExc e) => Some e | Some (OCanc e) => Some e | _ => None end) as [e|].
+  - destruct (k_startfut k) as [f|].
+    + destruct (f_st (futs s4 f)).
+      * now rewrite fut_complete_tasks.
+      * destruct (is_cancel e); [destruct (eff_cancelled s4 _); [reflexivity|apply Hc]|now rewrite Hc].
+      * destruct (is_cancel e); [destruct (eff_cancelled s4 _); [reflexivity|apply Hc]|now rewrite Hc].
+      * destruct (is_cancel e); [reflexivity|now rewrite Hc].
+    + destruct (is_cancel e); [destruct (eff_cancelled s4 _); [reflexivity|apply Hc]|now rewrite Hc].
+  - destruct (k_startfut k) as [f|]; [|reflexivity].
+    destruct (f_st (futs s4 f)); try reflexivity. now rewrite fut_complete_tasks.
 Qed.
